@@ -168,4 +168,48 @@ theorem logical_rebased (lg : Bool) (off len : Nat) (nulls : Option Nulls) (offs
   have e3 : offs.getD off 0 + (offs.getD (off + i + 1) 0 - offs.getD off 0) = offs.getD (off + i + 1) 0 := by omega
   rw [e2, e3]
 
+theorem len_slice (a : Arr) (o l : Nat) : (slice a o l).len = l := by
+  cases a <;> simp [slice, Arr.len]
+
+theorem wfNulls_slice (n : Option Nulls) (len o l : Nat) (h : wfNulls n len = true) (hol : o + l ≤ len) :
+    wfNulls (sliceNulls n o) l = true := by
+  cases n with
+  | none => rfl
+  | some n => simp [wfNulls, sliceNulls] at *; omega
+
+/-- a slice of a well-formed array is well-formed -/
+theorem wf_slice (a : Arr) (o l : Nat) (hw : wf a = true) (h : o + l ≤ a.len) : wf (slice a o l) = true := by
+  match a with
+  | .prim b off len nulls vals =>
+    simp only [wf, slice, Arr.len, Bool.and_eq_true, decide_eq_true_eq] at *
+    exact ⟨by omega, wfNulls_slice _ _ _ _ hw.2 h⟩
+  | .list lg off len nulls offs child =>
+    obtain ⟨hm, hl, hwc, hn⟩ := wf_list_parts _ _ _ _ _ _ hw
+    simp only [Arr.len] at h
+    have hlen : off + len + 1 ≤ offs.length := by
+      simp only [wf, Bool.and_eq_true, decide_eq_true_eq] at hw; exact hw.1.1.1.1
+    simp only [wf, slice, Bool.and_eq_true, decide_eq_true_eq]
+    refine ⟨⟨⟨⟨by omega, wfNulls_slice _ _ _ _ hn h⟩, ?_⟩, ?_⟩, hwc⟩
+    · rw [monoOffs_iff]
+      intro i hi
+      have := (monoOffs_iff _ _ _).1 hm (o + i) (by omega)
+      simpa [Nat.add_assoc] using this
+    · have := mono_le offs off len hm (o + l) len (by omega) (by omega)
+      simp only [Nat.add_assoc] at *
+      omega
+  | .struct len nulls names cols =>
+    simp only [Arr.len] at h
+    simp only [wf, slice, Bool.and_eq_true, wfCols_iff, sliceCols_eq_map] at *
+    refine ⟨⟨wfNulls_slice _ _ _ _ hw.1.1 h, by simpa using hw.1.2⟩, ?_⟩
+    intro c hc
+    simp only [List.mem_map] at hc
+    obtain ⟨d, hd, rfl⟩ := hc
+    have hd' := hw.2 d hd
+    exact ⟨len_slice _ _ _, wf_slice d o l hd'.2 (by omega)⟩
+termination_by sizeOf a
+decreasing_by
+  all_goals simp_wf
+  all_goals first | omega | (have := List.sizeOf_lt_of_mem hd; omega)
+
+
 end LanceModel.C40
